@@ -19,7 +19,7 @@ pub fn property() -> Property {
         parts: vec![
             Part {
                 name: "status",
-                quick: 12_000,
+                quick: 40_000,
                 thorough: 1_200_000,
                 single_shard: false, supplementary: false,
                 run: |cfg| run_part(cfg, prop_mix(), |r| PosCase { fen: gen::position(r, ClockDomain::Keep).fen() }, check_status),
